@@ -115,12 +115,15 @@ class ServeTask(Task):
             I.ob(f"C19/{SERVE}/dispatch-at-most-once", len(scp) == 1)
             # C23: pending cancels are dropped immediately before the operation starts (and after it ends normally)
             i = tr.index(scp[0])
-            before = [e for e in tr[:i] if e.name == "setattr" and e.args[0] == "assoc.dimse" and e.args[1] == "cancel_req"]
+            # the pending cancels are dropped either by binding a new empty map or by emptying the map in place
+            before = [e for e in tr[:i] if (e.name == "setattr" and e.args[0] == "assoc.dimse" and e.args[1] == "cancel_req") or
+                      (e.name == "cancel_req.clear")]
             I.ob(f"C23/{SERVE}/pending-cancels-are-dropped-before-the-operation-starts",
-                 bool(before) and _is_empty_map(I, before[-1].args[2]) and all(e.name in ("setattr",) for e in tr[tr.index(before[-1]):i]),
+                 bool(before) and _is_empty_map(I, before[-1].args[2]) and all(e.name in ("setattr", "cancel_req.clear") for e in tr[tr.index(before[-1]):i]),
                  detail=repr(before[-1].args[2]) if before else "cancel_req is not reset")
             if g.get("scp_outcome") == 0:
-                after = [e for e in tr[i:] if e.name == "setattr" and e.args[0] == "assoc.dimse" and e.args[1] == "cancel_req"]
+                after = [e for e in tr[i:] if (e.name == "setattr" and e.args[0] == "assoc.dimse" and e.args[1] == "cancel_req") or
+                         (e.name == "cancel_req.clear")]
                 I.ob(f"C23/{SERVE}/pending-cancels-are-dropped-when-the-operation-ends", bool(after) and _is_empty_map(I, after[-1].args[2]))
             else:
                 I.ob(f"C19/{SERVE}/a-failing-service-class-aborts-the-association", len(aborts) == 1)
@@ -137,6 +140,8 @@ class ServeTask(Task):
 
 def _is_empty_map(I, v):
     """the value stored as the pending-cancel map holds no entry (for every content the old map may have had)"""
+    if v == "cleared-in-place":
+        return True
     if isinstance(v, dict):
         return len(v) == 0
     if hasattr(v, "sym_len"):
@@ -235,3 +240,38 @@ class ReceiveCancelTask(Task):
         I.ob(f"{P}/a-cancel-is-recorded-under-the-message-id-it-names:more-than-10-pending",
              z3.Implies(n0 >= 10, z3.BoolVal(len(recorded) == 1)), detail=f"stores={len(cm.stores)} queued={[e.name for e in I.trace]}")
         I.ob(f"{P}/a-recorded-cancel-is-not-also-queued-as-a-request", not (recorded and any(e.name == "msg_queue.put" for e in I.trace)))
+
+
+class DimseInitTask(Task):
+    """every DIMSE provider (one per association) gets ITS OWN pending-cancel map, message under reassembly and message queue:
+    the constructor binds fresh ones on the instance - state shared between associations (a class attribute, a module-level
+    object, a default argument) would let a C-CANCEL received on one association reach an operation of another"""
+    name = "DIMSEServiceProvider.__init__/per-association-state"
+    INIT = "pynetdicom.dimse:DIMSEServiceProvider.__init__"
+    functions = [INIT]
+
+    def config(self, repo):
+        c = Config()
+        c.ob_prefix = "C23/"
+        c.ext_models["queue.Queue"] = lambda I, a, k: I.ghost.setdefault("queues", []).append(Env("new-queue")) or I.ghost["queues"][-1]
+        return c
+
+    def body(self, I):
+        P = f"C23/{self.INIT}"
+        ci = I.repo.cls("pynetdicom.dimse:DIMSEServiceProvider")
+        me = Obj(ci, tag="dimse")
+        kind, val = I.run_function(I.repo.func(self.INIT), [me, Env("assoc")])
+        I.ob(f"{P}/no-exception", kind == "return", detail=f"{kind}:{val!r}")
+        cm = me.fields.get("cancel_req", "<not bound on the instance>")
+        I.ob(f"{P}/the-pending-cancel-map-is-a-new-empty-dict-bound-on-the-instance", isinstance(cm, dict) and len(cm) == 0,
+             detail=repr(cm))
+        # a mutable class-level default would be shared by every instance that does not rebind it
+        shared = []
+        for nm in ("cancel_req", "message", "msg_queue"):
+            m = ci.find(I.repo, nm)
+            if m is not None and m[0] == "attr" and nm not in me.fields:
+                shared.append(nm)
+        I.ob(f"{P}/no-per-association-state-is-left-to-a-class-level-default", not shared, detail=repr(shared))
+        I.ob(f"{P}/no-message-is-under-reassembly-at-the-start", "message" in me.fields and me.fields["message"] is None)
+        I.ob(f"{P}/the-message-queue-is-a-new-queue-of-this-instance", isinstance(me.fields.get("msg_queue"), Env) and
+             me.fields["msg_queue"].path == "new-queue")
